@@ -188,12 +188,15 @@ class DataType(metaclass=_DataTypeMeta):
     @classmethod
     def _stream_read(cls, stream: BytesIO, size: int):
         """
-        Reads `size` bytes from `stream`.
-        Raises `BufferEmptyError` if stream returns no data.
+        Reads `size` bytes from `stream` (everything that is left if `size` is negative).
+        Raises `BufferEmptyError` if stream returns no data and
+        `DataError` if it returns less data than requested.
         """
         data = stream.read(size)
         if not data:
             raise BufferEmptyError()
+        if len(data) < size:
+            raise DataError(f"Expected {size} bytes, got {len(data)}: {data!r}")
         return data
 
     def __repr__(self) -> str:
